@@ -37,6 +37,9 @@ GEN = {
     'g_pic': ('\tcpu 16c84\n\torg 10\nl:\tmovlw 5\n\tdata 1,2,3,4,5,6,7,8,9\n\tgoto l\ncnt\tequ 77\n\tshared cnt,l\n', {}),
     'g_pad': ('\tcpu 68000\n\torg $1000\n\tdc.b 1\nw:\tdc.w $1234\n\tdc.b 1,2,3\nl:\tdc.l $11223344,w\n\tmove.l #l,d0\nhi\tequ $c0de\n\tshared w,l,hi\n', {}),
     'g_phase2': ('\tcpu z80\n\torg 100h\n\tdb 1\n\tphase 8000h\np1:\tdb 2,3\n\tphase 9000h\np2:\tdb 4\n\tdephase\np3:\tdb 5\n\tdephase\np4:\tdb 6\n\tshared p1,p2,p3,p4\n', {}),
+    # statements that put an annotation (=value, =>TRUE) into the code column, partly on lines that are not listed, in front of code lines
+    'g_listctl': ('\tcpu z80\n\torg 100h\nm\tmacro\nv\tset 1\n\tendm\n\tmacexp off\n\tm\n\tld a,5\n\tmacexp on\n\tm\n\tld b,6\n\tlisting purecode\nf\tequ 1\n\tif f\n\tld c,7\n\tendif\n'
+                  '\tif 0\n\tnop\n\tendif\n\tld d,8\n\tlisting noskipped\n\tif 0\n\tnop\n\telse\n\tld e,9\n\tendif\n\tlisting on\nw\tequ 1234h\n\tld h,10\n\tshared w\n', {}),
     'g_c30': ('\tcpu 320c30\n\torg 100h\nx:\tword 1,2,3\n\tldi r0,r1\n\tshared x\n', {}),
 }
 SHARE = {'c': ['-c'], 'p': ['-p'], 'a': ['-a'], 'ch': ['-c', '-h'], 'ph': ['-p', '-h'], 'ah': ['-a', '-h']}      # -h: hexadecimal digits in lower case
@@ -94,7 +97,7 @@ def parse_listing(text, radix):
             if rest.startswith('(MACRO') or rest.startswith('<padding>') and False:
                 continue
             units = unit_tokens(rest, radix)
-            out.append([int(m.group(1)), m.group(2), units, rest, []])
+            out.append([int(m.group(1)), m.group(2), units, rest, [], l.lstrip().startswith('(')])
             continue
         m = CONTL.match(l)
         if m and out:
@@ -204,12 +207,30 @@ def evaluate(case):
     # (B) listing
     radix = case['radix']
     lst = (core.get('src/' + t + '.lst') or b'').decode('latin-1')
-    ents = [e for e in parse_listing(lst, radix) if e[2]]
+    allents = parse_listing(lst, radix)
+    ents = [e for e in allents if e[2]]
     ncode = 0
     if not retract:
+        # a listed line whose code column holds an annotation (=value, =>TRUE...) although code was emitted for exactly that line
+        # and address: the annotation belongs to another statement
+        at = {}
+        for c in chunks:
+            if c['data']:
+                at.setdefault((c['line'], c['pc'] + c['ph']), c)
+        nlisted = {}
+        for e in allents:
+            if not e[5]:
+                nlisted[e[0]] = nlisted.get(e[0], 0) + 1
+        for ln, atext, units, rest, conts, inc in allents:
+            # (lines of the main file only - include files restart the numbering - and not the lines of a macro expansion,
+            # which all carry the number of the call)
+            if not units and rest.startswith('=') and not inc and nlisted[ln] == 1:
+                c = at.get((ln, parse_int(atext, radix)))
+                if c is not None and os.path.basename(c['file']) == t + '.asm':
+                    return core.R(False, 'listing-bytes', 'listing/annotation-instead-of-code', 'listing line %d shows "%s" where the bytes %s were emitted on %s' % (ln, rest.split()[0], c['data'].hex(), desc))
         ci = 0
         orient = None
-        for ln, atext, units, rest, conts in ents:
+        for ln, atext, units, rest, conts, _inc in ents:
             a = parse_int(atext, radix)
             # lines may legitimately be missing from the listing (LISTING OFF, suppressed macro expansions): search forward
             # for the chunk this entry talks about - same source line number and same address
